@@ -53,6 +53,7 @@ func TestVerifReplayC06(t *testing.T) {
 		"crafted/crlf":      "package p\r\n\r\nimport (\r\n\t\"fmt\"\r\n\t\"strings\"\r\n)\r\n\r\nvar x = fmt.Sprint(strings.ToUpper(\"a\"))\r\n\r\ntempl a(s string) {\r\n\t<p>{ s }</p>\r\n\tfor _, c := range s {\r\n\t\t<i>{ string(c) }</i>\r\n\t}\r\n}\r\n",
 		"crafted/constructs": "package p\n\ntempl a(s string, ok bool) {\n\t<!-- c -->\n\t<div class={ s } if ok {\n\t\tid=\"x\"\n\t} else {\n\t\tid=\"y\"\n\t} { attrs... }>{ s }</div>\n\tfor _, c := range s {\n\t\t{ string(c) }\n\t}\n\tif ok {\n\t\t@b(s)\n\t} else if s == \"\" {\n\t\t<br/>\n\t} else {\n\t\t{! b(s) }\n\t}\n\t<script>var x = {{ s }};</script>\n\t<style>p{}</style>\n\t{{ v := 1 }}\n\t@b(s) {\n\t\t<i></i>\n\t}\n}\n",
 		"crafted/top-level-go": "package p\n\n/**\n * A starred comment with an empty line\n *\n * templ is great (really)\n */\n\n/* **** banner ****\n****/\n\n// templ x() {\nvar raw = \x60\ntempl is in a raw string\n*/ /*\n\x60\n\nfunc f() string { return \"/*\" } // */\n\ntempl a(s string) {\n\t<p>{ s }</p>\n}\n\n/* trailing *",
+		"crafted/padded-keywords": "package p\n\ntempl a(show bool, items []string) {\n\tif  show {\n\t\t<a></a>\n\t} else if   len(items) > 1 {\n\t\t<b></b>\n\t}\n\tfor  _, item := range items {\n\t\t<i>{ item }</i>\n\t}\n\tswitch  len(items) {\n\tcase  1:\n\t\t<u></u>\n\t}\n\t@ row(\"a\")\n\t@row(  \"b\")\n}\n\ntempl row(s string) {\n\t<p>{ s }</p>\n}\n",
 		"crafted/bom":       "\ufeffpackage p\n\ntempl a(s string) {\n\t<p>{ s }</p>\n\tif s == \"x\" {\n\t\t<b>{ s }</b>\n\t}\n}\n",
 		"crafted/newline-after-brace": "package p\n\ntempl a(s string, c templ.CSSClass) {\n\t<div\n\t\tclass={\n\t\t\tc,\n\t\t\t\"x\",\n\t\t}\n\t\ttitle={\n\t\t\ts }\n\t>{\n\t\ts }</div>\n}\n\ncss k(w string) {\n\twidth: {\n\t\tw };\n}\n",
 		"crafted/multiline": "package p\n\ntempl a(items []string) {\n\t<p>{ fmt.Sprintf(\"%d\",\n\t\tlen(items)) }</p>\n\t@b(items[0],\n\t\titems[1])\n\tswitch len(items) {\n\tcase 1:\n\t\t<a></a>\n\tdefault:\n\t\t<b></b>\n\t}\n}\n\ncss c(w string) {\n\twidth: { w };\n}\n",
